@@ -89,9 +89,13 @@ func TestVerifRunner(t *testing.T) {
 					caps = append(caps, evdev.EvType(v))
 				}
 			}
+			uniq := ""
+			if len(toks) > 8 {
+				uniq = vunhex(toks[8])
+			}
 			infos = append(infos, DeviceInfo{
 				ID:   InputID{Bus: uint16(n[0]), Vendor: uint16(n[1]), Product: uint16(n[2]), Version: uint16(n[3])},
-				Name: vunhex(toks[6]), Phys: vunhex(toks[1]), CapableTypes: caps,
+				Name: vunhex(toks[6]), Phys: vunhex(toks[1]), CapableTypes: caps, Uniq: uniq,
 			})
 		case "norm":
 			res := ""
